@@ -55,8 +55,9 @@ class Forest:
         return {self.name[c] for c in self.kids[parent] if self.alive[c]}
 
 
-def grow(rnd, forest, lines, mk_line, shape, roots, budget, block=0):
-    """add `roots` trees of the given shape (depth <= 5 levels, branching <= 4)"""
+def grow(rnd, forest, lines, mk_line, shape, roots, budget, block=0, peek=None):
+    """add `roots` trees of the given shape (depth <= 5 levels, branching <= 4); `peek(k)` may emit a line that
+    makes a second handle look at the node while it is still childless"""
     def fresh_name(parent):
         used = forest.sibling_names(parent, block)
         free = [n for n in NAMES if n not in used]
@@ -69,6 +70,8 @@ def grow(rnd, forest, lines, mk_line, shape, roots, budget, block=0):
         ty = rnd.choice(TYPES)
         k = forest.add(parent, n, ty, block)
         lines.append(mk_line(parent, n, ty))
+        if peek:
+            peek(k)
         return k
 
     for _ in range(roots):
@@ -125,7 +128,11 @@ class C20(Prop):
                        'names and types drawn from small pools so that several nodes share them; properties, links with overlapping property '
                        'names, metadata and source assignments shared between entities; deletions of subtrees followed by re-creation) plus '
                        '~25 queries over all entry points, the five filters (incl. values matching nothing) and depths 0..height+1 and max; a case is '
-                       'non-trivial when at least one query returns a non-empty result; distinct = distinct script text')
+                       'non-trivial when at least one query returns a non-empty result; distinct = distinct script text. Every query is asked through a '
+                       'generator-chosen handle route (@c creating handle, @e a second handle that looked at the entity while it was still '
+                       'childless / property-less / array-less (`peek`), @f freshly fetched by name, @p fetched through the parent\'s peeked handle) '
+                       'and in three history shapes: interleaved rw; build without any query -> reopen ReadOnly -> queries -> reopen rw -> more; '
+                       'rw rounds -> ReadOnly -> rw. The model answers do not depend on route or mode')
     assumptions = ['TypeFilter(str) is boost::regex_match; modelled as string equality (generated types contain no regex metacharacters)',
                    'children are enumerated in HDF5 creation order (H5Lget_name_by_idx on the creation-order index), deleting a child keeps the '
                    'order of the others; H5Group::removeAllLinks removes every link to the deleted object (metadata/link/source links included)',
@@ -149,16 +156,28 @@ class C20(Prop):
                 return False
         return a == b
 
+    @staticmethod
+    def word(line):
+        t = line.split(' ')
+        return t[1] if t[0].startswith('@') and len(t) > 1 else t[0]
+
     def nontrivial(self, case, model_lines):
         for l, m in zip(case.lines, model_lines):
-            w = l.split(' ')[0]
+            w = self.word(l)
             if w.startswith(('find', 'rel', 'inh', 'ref', 'src', 'par')) and w != 'src' and m.startswith('OK ') and not m.startswith('OK 0'):
                 return True
         return False
 
     def signature(self, case, impl, spec):
-        bad = [case.lines[i].split(' ')[0] for i, (a, b) in enumerate(zip(impl, spec)) if b != 'ANY' and not self.compare(a, b)]
-        return {'query': bad[0] if bad else 'none'}
+        bad = [case.lines[i] for i, (a, b) in enumerate(zip(impl, spec)) if b != 'ANY' and not self.compare(a, b)]
+        if not bad:
+            return {'query': 'none'}
+        t = bad[0].split(' ')
+        ro = False
+        for l in case.lines[:case.lines.index(bad[0])]:
+            if l.startswith('reopen'):
+                ro = l.endswith('ro')
+        return {'query': self.word(bad[0]), 'route': t[0][1] if t[0].startswith('@') else '-', 'mode': 'ro' if ro else 'rw'}
 
     def describe(self, case, impl, spec):
         for i, (a, b) in enumerate(zip(impl, spec)):
@@ -171,12 +190,24 @@ class C20(Prop):
         L = ['new']
         S = Forest(); R = Forest()
         nblocks = rnd.choice([1, 1, 2])
-        for _ in range(nblocks):
+        hist = rnd.choice(['plain', 'plain', 'rofirst', 'rofirst', 'mixed'])
+        pk = rnd.choice([0.0, 0.3, 0.6]) if hist != 'rofirst' else rnd.choice([0.0, 0.0, 0.4])
+        peeked = {'S': set(), 'R': set(), 'B': set()}
+
+        def peek(kind, k, prob=None):
+            if k not in peeked[kind] and rnd.random() < (pk if prob is None else prob):
+                L.append('peek %s%d' % (kind, k))
+                peeked[kind].add(k)
+
+        for b in range(nblocks):
             L.append('block')
-        grow(rnd, S, L, lambda p, n, t: 'sec %d %s %s' % (p, hx(n), hx(t)), shape, rnd.choice([1, 1, 2, 3]), rnd.choice([12, 25, 40]))
+            peek('B', b)                     # before the block has any source / array / tag / multi-tag
+        grow(rnd, S, L, lambda p, n, t: 'sec %d %s %s' % (p, hx(n), hx(t)), shape, rnd.choice([1, 1, 2, 3]), rnd.choice([12, 25, 40]),
+             peek=lambda k: peek('S', k))
         for b in range(nblocks):
             sshape = rnd.choice(SHAPES)
-            grow(rnd, R, L, lambda p, n, t, b=b: 'src %d %d %s %s' % (b, p, hx(n), hx(t)), sshape, rnd.choice([0, 1, 2, 2]), rnd.choice([6, 12, 20]), block=b)
+            grow(rnd, R, L, lambda p, n, t, b=b: 'src %d %d %s %s' % (b, p, hx(n), hx(t)), sshape, rnd.choice([0, 1, 2, 2]), rnd.choice([6, 12, 20]),
+                 block=b, peek=lambda k: peek('R', k))
         # properties and links
         props = {}
         for k in S.live():
@@ -269,74 +300,164 @@ class C20(Prop):
             """live sections that an entity of the given kind points to (last meta wins)"""
             return sorted({s for h, s in meta.items() if h[0] == prefix and S.alive[s] and (prefix != 'R' or R.alive[int(h[1:])])})
 
+        def routed(kind, k, q):
+            """the handle route the query is asked through; the answer must not depend on it"""
+            r = rnd.random()
+            if k in peeked[kind] and r < 0.55:
+                return '@e ' + q
+            if r < 0.60:
+                return '@c ' + q
+            if r < 0.82:
+                return '@f ' + q
+            return '@p ' + q
+
         def query():
             r = rnd.random()
             sl, rl = S.live(), R.live()
             if r < 0.22 and sl:
                 k = tall(S, sl)
-                return 'findsec S%d %s %s' % (k, depth_for(S.height_below(k)), filt(S, 'S'))
+                return routed('S', k, 'findsec S%d %s %s' % (k, depth_for(S.height_below(k)), filt(S, 'S')))
             if r < 0.32:
                 h = max([1 + S.height_below(k) for k in sl if S.parent[k] < 0] + [0])
                 return 'findsec file %s %s' % (depth_for(h), filt(S, 'S'))
             if r < 0.44 and rl:
                 k = tall(R, rl)
-                return 'findsrc R%d %s %s' % (k, depth_for(R.height_below(k)), filt(R, 'R'))
+                return routed('R', k, 'findsrc R%d %s %s' % (k, depth_for(R.height_below(k)), filt(R, 'R')))
             if r < 0.52:
                 b = rnd.randrange(nblocks)
                 h = max([R.height_below(k) for k in rl if R.parent[k] < 0 and R.block[k] == b] + [0])
-                return 'findsrc B%d %s %s' % (b, depth_for(h), filt(R, 'R'))
+                return routed('B', b, 'findsrc B%d %s %s' % (b, depth_for(h), filt(R, 'R')))
             if r < 0.64 and sl:
-                return 'related %d %s' % (rnd.choice(sl), filt(S, 'S'))
+                k = rnd.choice(sl)
+                return routed('S', k, 'related %d %s' % (k, filt(S, 'S')))
             if r < 0.72 and sl:
                 c = [k for k in linked if S.alive[k]]
-                return 'inherited %d' % (rnd.choice(c) if c and rnd.random() < 0.7 else rnd.choice(sl))
-            if r < 0.86 and sl:
+                k = rnd.choice(c) if c and rnd.random() < 0.5 else rnd.choice(sl)
+                return routed('S', k, 'inherited %d' % k)
+            if r < 0.84 and sl:
                 word, prefix = rnd.choice([('refblocks', 'B'), ('refarrays', 'A'), ('reftags', 'T'), ('refmtags', 'M'), ('refsources', 'R')])
                 c = holders_of(prefix)
                 k = rnd.choice(c) if c and rnd.random() < 0.75 else rnd.choice(sl)
-                return '%s %d' % (word, k)
-            if r < 0.95 and rl:
+                return routed('S', k, '%s %d' % (word, k))
+            if r < 0.96 and rl:
                 word, prefix = rnd.choice([('srcarrays', 'A'), ('srctags', 'T'), ('srcmtags', 'M')])
                 c = sorted({s for e, s in attached if e[0] == prefix and R.alive[s]})
                 k = rnd.choice(c) if c and rnd.random() < 0.75 else rnd.choice(rl)
-                return '%s %d' % (word, k)
+                return routed('R', k, '%s %d' % (word, k))
             if rl:
-                return 'parent %d' % rnd.choice(rl)
+                k = rnd.choice(rl)
+                return routed('R', k, 'parent %d' % k)
             return 'findsec file max all'
 
-        rounds = rnd.choice([1, 2, 2, 3])
-        for rd in range(rounds):
-            if rd > 0 or rnd.random() < 0.5:
-                # deletions (subtrees), sometimes followed by new children under survivors
-                for _ in range(rnd.choice([1, 1, 2, 3])):
-                    if rnd.random() < 0.6 and S.live():
-                        k = rnd.choice(S.live()); L.append('delsec %d' % k); S.kill(k)
-                    elif R.live():
-                        k = rnd.choice(R.live()); L.append('delsrc %d' % k); R.kill(k)
-                if rnd.random() < 0.5:
-                    for _ in range(rnd.choice([1, 2])):
-                        if S.live() and rnd.random() < 0.6:
-                            p = rnd.choice(S.live() + [-1])
-                            free = [n for n in NAMES if n not in S.sibling_names(p)]
-                            if free and (p < 0 or S.depth[p] < 4) and len([c for c in (S.kids[p] if p >= 0 else []) if S.alive[c]]) < 4:
-                                n, t = rnd.choice(free), rnd.choice(TYPES)
-                                S.add(p, n, t); L.append('sec %d %s %s' % (p, hx(n), hx(t)))
-                        elif R.live():
-                            p = rnd.choice(R.live())
-                            free = [n for n in NAMES if n not in R.sibling_names(p)]
-                            if free and R.depth[p] < 4 and len([c for c in R.kids[p] if R.alive[c]]) < 4:
-                                n, t = rnd.choice(free), rnd.choice(TYPES)
-                                R.add(p, n, t, R.block[p]); L.append('src %d %d %s %s' % (R.block[p], p, hx(n), hx(t)))
-            for _ in range(max(1, nq // rounds)):
+        def delete_some():
+            for _ in range(rnd.choice([1, 1, 2, 3])):
+                if rnd.random() < 0.6 and S.live():
+                    k = rnd.choice(S.live()); L.append('delsec %d' % k); S.kill(k)
+                elif R.live():
+                    k = rnd.choice(R.live()); L.append('delsrc %d' % k); R.kill(k)
+
+        def late_growth(quiet):
+            """something is created late, often after a second handle of its container has looked at the still
+            empty container; unless `quiet`, the container is asked right away through one of the routes"""
+            x = rnd.random()
+            if x < 0.35 and S.live():
+                p = rnd.choice(S.live() + [-1])
+                free = [n for n in NAMES if n not in S.sibling_names(p)]
+                if free and (p < 0 or S.depth[p] < 4) and len([c for c in (S.kids[p] if p >= 0 else []) if S.alive[c]]) < 4:
+                    if p >= 0:
+                        peek('S', p, 0.6)
+                    n, t = rnd.choice(free), rnd.choice(TYPES)
+                    k = S.add(p, n, t); L.append('sec %d %s %s' % (p, hx(n), hx(t)))
+                    peek('S', k)
+                    if p >= 0 and not quiet:
+                        L.append(routed('S', p, 'findsec S%d %s all' % (p, rnd.choice(['1', 'max']))))
+            elif x < 0.55 and R.live():
+                p = rnd.choice(R.live())
+                free = [n for n in NAMES if n not in R.sibling_names(p)]
+                if free and R.depth[p] < 4 and len([c for c in R.kids[p] if R.alive[c]]) < 4:
+                    peek('R', p, 0.6)
+                    n, t = rnd.choice(free), rnd.choice(TYPES)
+                    k = R.add(p, n, t, R.block[p]); L.append('src %d %d %s %s' % (R.block[p], p, hx(n), hx(t)))
+                    peek('R', k)
+                    if not quiet:
+                        L.append(routed('R', p, 'findsrc R%d %s all' % (p, rnd.choice(['1', 'max']))))
+            elif x < 0.75 and S.live():
+                k = rnd.choice(S.live())
+                have = props.get(k, [])
+                free = [n for n in PNAMES if n not in have]
+                if free:
+                    peek('S', k, 0.6)
+                    n = rnd.choice(free)
+                    props.setdefault(k, []).append(n)
+                    L.append('prop %d %s' % (k, hx(n)))
+                    if not quiet:
+                        L.append(routed('S', k, 'inherited %d' % k))
+            else:
+                b = rnd.randrange(nblocks)
+                peek('B', b, 0.5)
+                kind, word = rnd.choice([('A', 'array'), ('T', 'tag'), ('M', 'mtag')])
+                L.append('%s %d' % (word, b))
+                e = '%s%d' % (kind, cnt[kind]); cnt[kind] += 1
+                ents.append((e, b))
+                mine = [k for k in R.live() if R.block[k] == b]
+                if mine and rnd.random() < 0.8:
+                    s = rnd.choice(mine)
+                    peek('R', s, 0.4)                      # hangs on the block's peeked handle if there is one
+                    L.append('addsrc %s %d' % (e, s)); attached.add((e, s))
+                    if not quiet:
+                        L.append(routed('R', s, '%s %d' % ({'A': 'srcarrays', 'T': 'srctags', 'M': 'srcmtags'}[kind], s)))
+                if S.live() and rnd.random() < 0.5:
+                    s = rnd.choice(S.live())
+                    L.append('meta %s %d' % (e, s)); meta[e] = s
+
+        def ask(n):
+            for _ in range(n):
                 L.append(query())
-            # a few queries / operations on deleted entities: refused on both sides
             deadS = [k for k in range(len(S.parent)) if not S.alive[k]]
             deadR = [k for k in range(len(R.parent)) if not R.alive[k]]
-            if deadS and rnd.random() < 0.4:
-                L.append(rnd.choice(['findsec S%d max all', 'inherited %d', 'refarrays %d', 'related %d all', 'link 0 %d', 'meta B0 %d']) % rnd.choice(deadS))
-            if deadR and rnd.random() < 0.4:
+            if deadS and rnd.random() < 0.3:      # queries on deleted entities: refused on both sides
+                L.append(rnd.choice(['findsec S%d max all', 'inherited %d', 'refarrays %d', 'related %d all']) % rnd.choice(deadS))
+            if deadR and rnd.random() < 0.3:
                 L.append(rnd.choice(['findsrc R%d max all', 'parent %d', 'srcarrays %d']) % rnd.choice(deadR))
-        return Case(L, shape)
+
+        def reopen(mode):
+            L.append('reopen ' + mode)
+            for v in peeked.values():
+                v.clear()
+
+        def rw_rounds(rounds, per_round):
+            for rd in range(rounds):
+                if rd > 0 or rnd.random() < 0.5:
+                    delete_some()
+                for _ in range(rnd.choice([0, 1, 2, 3])):
+                    late_growth(False)
+                ask(per_round)
+                deadS = [k for k in range(len(S.parent)) if not S.alive[k]]
+                if deadS and rnd.random() < 0.2:   # operations on deleted entities: refused on both sides
+                    L.append(rnd.choice(['link 0 %d', 'meta B0 %d']) % rnd.choice(deadS))
+
+        if hist == 'rofirst':
+            # build without a single query; the read-only session is the first observation of the file
+            if rnd.random() < 0.4:
+                delete_some()
+            for _ in range(rnd.choice([0, 1, 2])):
+                late_growth(True)
+            reopen('ro')
+            ask(nq // 2)
+            reopen('rw')
+            rw_rounds(rnd.choice([1, 2]), nq // 3)
+        elif hist == 'mixed':
+            rw_rounds(rnd.choice([1, 2]), nq // 3)
+            reopen('ro')
+            for k in rnd.sample(S.live(), min(2, len(S.live()))):
+                peek('S', k, 0.5)
+            ask(nq // 3)
+            reopen('rw')
+            rw_rounds(1, nq // 3)
+        else:
+            rounds = rnd.choice([1, 2, 2, 3])
+            rw_rounds(rounds, max(1, nq // rounds))
+        return Case(L, shape + '-' + hist)
 
     def generate(self, seed, tier, scale=1):
         rnd = random.Random(seed)
